@@ -171,7 +171,7 @@ DescribesP(g, S, split, H) ==
               /\ H[i].shift = ShiftNum(g, orig)
 
 \* sorting off: on-disk order
-UnsortedP(H, IDX) == \A i \in 1..Len(H) : H[i].ind = i - 1 /\ IDX[i] = i - 1
+UnsortedP(H, IDX) == Len(IDX) = Len(H) /\ \A i \in 1..Len(H) : H[i].ind = i - 1 /\ IDX[i] = i - 1
 \* sorting on: ordered by shank, row, descending column (strict: sites are distinct)
 SortedP(H) == \A i \in 1..(Len(H) - 1) : LexLess(<<H[i].shank, H[i].row, -H[i].col>>, <<H[i + 1].shank, H[i + 1].row, -H[i + 1].col>>)
 \* a true permutation that moves every attribute together: HS is HU re-indexed by IDX, and IDX is the ind column
